@@ -822,7 +822,16 @@ def run_check(chk: PropertyCheck, tier: str, seed: int, replay: str | None = Non
 
 
 def minimise(chk, c, obs, detail, budget=200):
-    """greedy shrinking of an oracle failure."""
+    """greedy shrinking of an oracle failure.  A shrink step never leaves the class of the original
+    failure: a failure that is NOT a recorded known finding is never shrunk into one (it would then be
+    filed as known and silently dropped)."""
+    def _kf(case, o):
+        try:
+            return chk.known_finding(case, o)
+        except Exception:
+            return None
+
+    kf_orig = _kf(c, obs)
     steps = 0
     improved = True
     while improved and steps < budget:
@@ -837,6 +846,8 @@ def minimise(chk, c, obs, detail, budget=200):
             except Exception:
                 continue
             if not h:
+                if _kf(c2, o2) != kf_orig:
+                    continue
                 c, obs, detail = c2, o2, d
                 improved = True
                 break
